@@ -13,7 +13,7 @@
    parameter name `self`.  The full statement is therefore false (theorems `*_refuted`, each witness
    reproduced on the real code by bin/check as a KNOWN-FINDING); it is proved under the guards that
    exclude exactly those regions (`*_partial`).  `run` is the model of coq/Model/Pedantic.v,
-   tied to the source by translator/t_pedantic.py (Gen/Pedantic.v, `C05_cfg_good`, `C05_model_locks`)
+   tied to the source by translator/t_pedantic.py (Gen/Pedantic.v, `C05_cfg_good`; AST locks of the hand-modelled functions: obligation locks:hand-modelled-functions of bin/check)
    and by the correspondence stream pedantic/sig-x-call of bin/check C05.                     *)
 From Coq Require Import List Arith Bool String ZArith Lia.
 From PV Require Import Base.Exn Base.Values Base.Ann Base.PyCall Model.CheckerCfg Model.Checker Model.PedanticCfg
@@ -27,11 +27,6 @@ Open Scope list_scope.
 Theorem C05_cfg_good : pc_good Gen.Pedantic.pedantic_cfg = true.
 Proof. vm_compute. reflexivity. Qed.
 Print Assumptions C05_cfg_good.
-
-(* the functions modelled by hand are the ones the model was written against *)
-Theorem C05_model_locks : Gen.Pedantic.locks = PedanticBase.model_locks.
-Proof. vm_compute. reflexivity. Qed.
-Print Assumptions C05_model_locks.
 
 (* ---------------- the discipline ---------------- *)
 (* no *args in the signature, k >= 1 declared parameters positional, not exempt: PedanticCallWithArgsException
